@@ -1,4 +1,5 @@
-import Dbus.Proofs.WireFuel
+import Dbus.Proofs.WireIff
+import Dbus.Proofs.MessageLevel
 /-
   C01 — untrusted bytes become a message only if spec-valid, and always safely.
   Property theorems (value / body level; the message level is in the second half).
@@ -29,48 +30,23 @@ theorem decode_encode (e : Endian) (v : Val) (t : Ty) (off : Nat) (r : Bytes) (n
     well-formed values of those types followed by the remainder. -/
 theorem decodeFields_iff (e : Endian) (ts : List Ty) (bs : Bytes) (vs : List Val) (r : Bytes) :
     decodeFields e (fuelFor bs.length) 0 ts 0 bs = some (vs, r) ↔
-      (bs = encodeList e 0 vs ++ r ∧ WFFields e 0 0 vs ts) := by
-  constructor
-  · exact (decode_sound e _).2.1 0 ts 0 bs vs r
-  · rintro ⟨hb, hwf⟩
-    have hfuel : needList vs ≤ fuelFor bs.length :=
-      fuelFor_covers e vs ts 0 bs.length hwf (by rw [hb]; simp)
-    have := decodeFields_complete e vs ts 0 0 r (fuelFor bs.length) hwf hfuel
-    rw [hb] at this ⊢
-    simpa using this
+      (bs = encodeList e 0 vs ++ r ∧ WFFields e 0 0 vs ts) :=
+  Dbus.Proofs.Wire.decodeFields_iff e ts bs vs r
 
 /-- **Prefix stability** (used by C11): what is accepted, and how many bytes it consumed, does
     not depend on the bytes that follow. -/
 theorem validate_prefix_stable (e : Endian) (ts : List Ty) (a b : Bytes) (vs : List Val) (r : Bytes)
     (h : decodeFields e (fuelFor a.length) 0 ts 0 a = some (vs, r)) :
-    decodeFields e (fuelFor (a ++ b).length) 0 ts 0 (a ++ b) = some (vs, r ++ b) := by
-  obtain ⟨ha, hwf⟩ := (decodeFields_iff e ts a vs r).1 h
-  apply (decodeFields_iff e ts (a ++ b) vs (r ++ b)).2
-  exact ⟨by rw [ha]; simp, hwf⟩
+    decodeFields e (fuelFor (a ++ b).length) 0 ts 0 (a ++ b) = some (vs, r ++ b) :=
+  Dbus.Proofs.Wire.validate_prefix_stable e ts a b vs r h
 
 /-- … and conversely: if the longer buffer is accepted using only bytes of the shorter one,
     the shorter one is accepted with the same values. -/
 theorem validate_prefix_reflects (e : Endian) (ts : List Ty) (a b : Bytes) (vs : List Val) (r : Bytes)
     (h : decodeFields e (fuelFor (a ++ b).length) 0 ts 0 (a ++ b) = some (vs, r))
     (hlen : (encodeList e 0 vs).length ≤ a.length) :
-    ∃ r', r = r' ++ b ∧ decodeFields e (fuelFor a.length) 0 ts 0 a = some (vs, r') := by
-  obtain ⟨hab, hwf⟩ := (decodeFields_iff e ts (a ++ b) vs r).1 h
-  -- a ++ b = enc ++ r with |enc| ≤ |a| : so a = enc ++ r' and r = r' ++ b
-  have h1 : a = (a ++ b).take a.length := by simp
-  have hsplit : a = encodeList e 0 vs ++ (a.drop (encodeList e 0 vs).length) := by
-    have : (a ++ b).take (encodeList e 0 vs).length = encodeList e 0 vs := by rw [hab]; simp
-    have h2 : a.take (encodeList e 0 vs).length = encodeList e 0 vs := by
-      rw [List.take_append_of_le_length hlen] at this
-      exact this
-    have h3 := (List.take_append_drop (encodeList e 0 vs).length a).symm
-    rw [h2] at h3
-    exact h3
-  refine ⟨a.drop (encodeList e 0 vs).length, ?_, ?_⟩
-  · have : encodeList e 0 vs ++ r = encodeList e 0 vs ++ (a.drop (encodeList e 0 vs).length ++ b) := by
-      rw [← hab, ← List.append_assoc, ← hsplit]
-    exact List.append_cancel_left this
-  · apply (decodeFields_iff e ts a vs _).2
-    exact ⟨hsplit, hwf⟩
+    ∃ r', r = r' ++ b ∧ decodeFields e (fuelFor a.length) 0 ts 0 a = some (vs, r') :=
+  Dbus.Proofs.Wire.validate_prefix_reflects e ts a b vs r h hlen
 
 /-- non-vacuity: a struct holding a byte, an array of u16 and a variant is well-formed (so
     the hypotheses of `decode_encode` are satisfiable by a nested value) in both byte orders -/
@@ -81,5 +57,50 @@ example (e : Endian) :
   simp [WFVal, WFFields, WFElems, BTy.isFixed, BTy.fixedSize, BTy.size, Ty.isFixed, MAX_VALUE_DEPTH,
     MAX_ARRAY_LENGTH, Ty.WF, Ty.DepthLax, Ty.maxRun, Ty.structDepth, Ty.dictDepth, MAX_TYPE_DEPTH,
     encodeList, encode, encNat_length, Ty.print, BTy.code, pad, padLen, BTy.align, Ty.align]
+
+end Dbus.Props.C01
+
+namespace Dbus.Props.C01
+open Dbus Dbus.Spec Dbus.Model Dbus.Proofs.Message
+
+/-- **Accepts iff spec-valid, message level.** The parser yields a message from the front of a
+    buffer exactly when the buffer starts with the wire image of a well-formed message
+    (`WFMsg`: marshalling, header-field, size and nesting rules), and then it yields *that*
+    message, consuming exactly its image. Holds for every byte string, both byte orders, every
+    maximum size and descriptor count. -/
+theorem demarshal_accepts_iff_spec (mx fds : Nat) (bs : Bytes) (m : Msg) (n : Nat) :
+    loadOne true mx fds bs = .ok m n ↔
+      (WFMsg mx fds m ∧ n = (encodeMsg m).length ∧ ∃ rest, bs = encodeMsg m ++ rest) := by
+  constructor
+  · intro h
+    obtain ⟨hn, htake, hwf⟩ := loadOne_sound h
+    have hlen : n = (encodeMsg m).length := by
+      rw [← htake]; simp; omega
+    refine ⟨hwf, hlen, bs.drop n, ?_⟩
+    rw [← htake]; simp
+  · rintro ⟨hwf, rfl, rest, rfl⟩
+    exact loadOne_encodeMsg hwf rest
+
+/-- **Accessors equal an independent decoding**: a second, independent decoding of the accepted
+    bytes (re-encoding the returned message and loading it again, on its own) gives the same
+    header fields and body values. -/
+theorem accessors_eq_independent_decoding (mx fds : Nat) (bs : Bytes) (m : Msg) (n : Nat)
+    (h : loadOne true mx fds bs = .ok m n) :
+    loadOne true mx fds (bs.take n) = .ok m n := by
+  obtain ⟨hn, htake, hwf⟩ := loadOne_sound h
+  have := loadOne_encodeMsg hwf []
+  rw [List.append_nil, ← htake] at this
+  rw [this]
+  congr 1
+  simp; omega
+
+/-- **Limits are exact**: a message whose total size exceeds the loader's maximum is never
+    accepted; one within it is not refused for its size. (The 2^26 array and 64-level nesting
+    limits are clauses of `WFVal`; 255-byte names and signatures of the C16 predicates.) -/
+theorem message_size_limit (mx fds : Nat) (bs : Bytes) (m : Msg) (n : Nat)
+    (h : loadOne true mx fds bs = .ok m n) : n ≤ mx := by
+  obtain ⟨hwf, hn, _⟩ := (demarshal_accepts_iff_spec mx fds bs m n).1 h
+  rw [hn, encodeMsg_length]
+  exact hwf.total_le
 
 end Dbus.Props.C01
